@@ -460,7 +460,6 @@ package agent
 
 // ---------------------------------------------------------------- which handler scripts run for an event (C27, first sentence)
 
-
 //@ deterministic Event.EventType
 
 // running a script (process, environment, stdin) is outside the verified code; its calls are logged
